@@ -99,6 +99,23 @@ theorem C05_resource_options_other (S : Schema) (ty : Nat) (opts : List ROpt) :
   unfold resourceWritable
   exact resourceWritable_foldl_other S ty opts _
 
+/-- **C05_race_window_halves.**  The window of `GetAndUpdate` has two halves around `writer.Merge`
+(`raceSetPhased`: rivals committed before it — after the read, in the expected-check, in
+`InterceptBefore` — and after it — in `InterceptAfter`, before the lock is taken again).  For ALL
+rival lists: unless `Merge` panics the halves do not matter and every theorem about `raceSet` holds
+for the rivals in window order; when `Merge` panics in an accepted write, the call ends there and
+exactly the first half has been committed, by the others alone. -/
+theorem C05_race_window_halves (eq : Fields → Fields → Bool) (S : Schema) (ty : Nat) (u : Updater)
+    (stored src : Fields) (pre post : List Rival) :
+    (merge S ty u stored src ≠ none →
+      raceSetPhased eq S ty u stored src pre post = raceSet eq S ty u stored src (pre ++ post)) ∧
+    (validate S ty u = .ok → merge S ty u stored src = none →
+      raceSetPhased eq S ty u stored src pre post = ⟨.panic, commitAll S ty stored pre⟩) := by
+  refine ⟨raceSetPhased_eq eq S ty u stored src pre post, ?_⟩
+  intro hv hm
+  unfold raceSetPhased raceSet
+  simp only [hm, hv]
+
 /-! ## Non-vacuity -/
 
 /-- the outer write `WithUpdatePaths("g")` of `{g=9}` -/
@@ -131,6 +148,19 @@ example : (raceSet protoEqual wSchema 0 rOuter wStored (.cons "g" (.sc "i9") .ni
         simp [Schema.fields, wSchema] at hm
         rcases hm with rfl | rfl <;> rfl
       simp [this]
+
+/-- The panic case of `C05_race_window_halves` is reachable: a writable path that continues below a
+map field (`m.x`, server configuration nobody validates) passes `Validate` and makes `Merge` panic on
+a written message that holds the map; a rival placed after `Merge` is then never committed. -/
+example :
+    let S : Schema := [[⟨"f", .message 1, 0⟩, ⟨"g", .scalar, 0⟩, ⟨"m", .map, 0⟩], [⟨"c", .scalar, 0⟩, ⟨"d", .scalar, 0⟩]]
+    let u : Updater := ⟨some [["m", "x"]], none, none⟩
+    let src : Fields := .cons "m" (.map [("a", "b")]) .nil
+    let rv : Rival := ⟨⟨none, none, none⟩, .cons "g" (.sc "i9") .nil⟩
+    validate S 0 u = .ok ∧ merge S 0 u wStored src = none ∧
+    raceSetPhased protoEqual S 0 u wStored src [] [rv] = ⟨.panic, wStored⟩ ∧
+    (raceSetPhased protoEqual S 0 u wStored src [rv] []).stored.get "g" = some (.sc "i9") := by
+  decide
 
 /-- `proto.Equal` relates messages that differ in field order only, and structural equality
 satisfies the hypothesis of `C05_race_success_is_write_on_current`. -/
